@@ -1,10 +1,12 @@
 /-
   Helper lemmas for C04Conv: round trip of the value the latitude loop actually returns (not an exact
-  fixed point).  With `lat = T(lat2)`, `c = c(lat2)`, `|lat − lat2| < 1e-10` (the exit test) and
-  `alt' = r / cos lat − c` (earth radii, as the code computes), the WGS-84 meridian formulas give
-     (c(lat) + alt') cos lat          − r = (c(lat) − c) cos lat
-     (c(lat)(1−e²) + alt') sin lat    − z = (c(lat) − c)(1−e²) sin lat + c e² (sin lat2 − sin lat)
-  (exact identities; the second uses tan lat = (z + c e² sin lat2)/r), and `c`, `sin` are Lipschitz.
+  fixed point).  With `lat = T(lat2)`, `|lat − lat2| < 1e-10` (the exit test) and the altitude
+  `alt' = r cos lat + z sin lat − √(1 − e² sin² lat)` (earth radii, as the code computes), the WGS-84
+  meridian formulas give
+     (c(lat) + alt') cos lat        − r =  (g(lat) − g(lat2)) sin lat cos lat
+     (c(lat)(1−e²) + alt') sin lat  − z = −(g(lat) − g(lat2)) cos² lat
+  (exact identities, `PV.C04.step_residual_core`: polar form of atan2, valid on the polar axis too), and
+  `g` is 0.00677-Lipschitz.
 -/
 import PV.Lemmas.C04ContractLoop
 import Mathlib.Analysis.SpecialFunctions.Trigonometric.Bounds
@@ -18,138 +20,125 @@ theorem ecc2_wgs84_le : ecc2 wgs84F ≤ 0.0066944 ∧ 0 < ecc2 wgs84F ∧ 0 < 1 
   unfold EccOK at h
   refine ⟨h.2, h.1, ?_, ?_⟩ <;> linarith [h.1, h.2]
 
-/-- meridian-plane residual of one exit of the loop (`r > 0`) -/
-theorem meridian_residual {z r : ℝ} (hr : 0 < r) {lat2 : ℝ}
-    (hclose : |(latStep z r lat2).1 - lat2| < 1e-10) :
-    |((latStep z r (latStep z r lat2).1).2 + (r / cos (latStep z r lat2).1 - (latStep z r lat2).2))
-        * cos (latStep z r lat2).1 - r| ≤ 6.8e-13 ∧
-    |((latStep z r (latStep z r lat2).1).2 * (1 - ecc2 wgs84F)
-        + (r / cos (latStep z r lat2).1 - (latStep z r lat2).2)) * sin (latStep z r lat2).1 - z|
-      ≤ 1.35e-12 := by
+/-- outside the sphere of radius 0.99 the point `(r, z + c e² sin lat2)` whose direction the body takes is
+    never the origin (so `atan2` is a genuine angle, polar axis included) -/
+theorem arg_point_ne_zero {z r : ℝ} (hp : 0.99 ^ 2 ≤ r ^ 2 + z ^ 2) (lat2 : ℝ) :
+    r ≠ 0 ∨ z + (latStep z r lat2).2 * ecc2 wgs84F * sin lat2 ≠ 0 := by
   have he := eccOK_wgs84
-  obtain ⟨he1, he0, he2, he3⟩ := ecc2_wgs84_le
+  have hg : (latStep z r lat2).2 * ecc2 wgs84F * sin lat2 = gfun (ecc2 wgs84F) lat2 := by
+    rw [latStep_snd_eq_cfun]; unfold cfun gfun; ring
+  rw [hg]
+  have h := rho_sq_ge hp (gfun_abs_le he lat2)
+  by_contra hcon
+  rw [not_or, not_not, not_not] at hcon
+  rw [hcon.1, hcon.2] at h
+  norm_num at h
+
+/-- meridian-plane residual of one exit of the loop: with the altitude `altOf` the code forms and
+    `c(lat)`, the WGS-84 formulas give back `(r, z)` up to `(g(lat) − g(lat2)) · (sin lat cos lat, −cos² lat)`;
+    polar axis included -/
+theorem meridian_residual {z r : ℝ} {lat2 : ℝ}
+    (hne : r ≠ 0 ∨ z + (latStep z r lat2).2 * ecc2 wgs84F * sin lat2 ≠ 0)
+    (hclose : |(latStep z r lat2).1 - lat2| < 1e-10) :
+    |((latStep z r (latStep z r lat2).1).2 + altOf z r (latStep z r lat2).1)
+        * cos (latStep z r lat2).1 - r| ≤ 6.8e-13 ∧
+    |((latStep z r (latStep z r lat2).1).2 * (1 - ecc2 wgs84F) + altOf z r (latStep z r lat2).1)
+        * sin (latStep z r lat2).1 - z| ≤ 6.8e-13 := by
+  have he := eccOK_wgs84
   have hlat := latStep_fst z r lat2
-  have hc2 := latStep_snd_eq_cfun z r lat2
-  have hcl := latStep_snd_eq_cfun z r (latStep z r lat2).1
-  set lat := (latStep z r lat2).1 with hlatd
-  set c := (latStep z r lat2).2 with hcd
-  set cl := (latStep z r lat).2 with hcld
-  set e := ecc2 wgs84F with hed
-  have hb := arg_range_of_re_pos hr (z + c * e * sin lat2)
-  rw [← hlat] at hb
-  have hcos : 0 < cos lat := cos_pos_of_mem_Ioo ⟨hb.1, hb.2⟩
-  have ht := Complex.tan_arg ⟨r, z + c * e * sin lat2⟩
-  rw [← hlat, tan_eq_sin_div_cos] at ht
-  simp only at ht
-  rw [div_eq_div_iff hcos.ne' hr.ne'] at ht
-  -- Lipschitz facts
-  have hLc : |cl - c| ≤ 0.00677 * 1e-10 := by
-    rw [hcl, hc2]
-    have := cfun_lipschitz he lat lat2
-    linarith
-  have hcb := cfun_bounds he lat2
-  rw [← hc2] at hcb
-  have hLs : |sin lat2 - sin lat| ≤ 1e-10 := by
-    have := abs_sin_sub_sin_le lat2 lat
-    rw [abs_sub_comm lat2 lat] at this
+  have hcl := latStep_snd z r (latStep z r lat2).1
+  have hc2 := latStep_snd z r lat2
+  obtain ⟨ha, hb⟩ := step_residual_core (ecc2 wgs84F) (latStep z r lat2).2 z r lat2 hne
+    (by rw [← hlat]; exact denominator_pos _)
+  rw [← hlat] at ha hb
+  rw [altOf_real, hcl]
+  set lat := (latStep z r lat2).1
+  have hg : ecc2 wgs84F * (1 / √(1 - ecc2 wgs84F * sin lat ^ 2) * sin lat - (latStep z r lat2).2 * sin lat2)
+      = gfun (ecc2 wgs84F) lat - gfun (ecc2 wgs84F) lat2 := by
+    rw [hc2]; unfold gfun Wd; ring
+  rw [hg] at ha hb
+  rw [ha, hb]
+  have hL : |gfun (ecc2 wgs84F) lat - gfun (ecc2 wgs84F) lat2| ≤ 0.00677 * 1e-10 := by
+    have := gfun_lipschitz he lat lat2
     linarith
   have hcos1 : |cos lat| ≤ 1 := abs_cos_le_one lat
   have hsin1 : |sin lat| ≤ 1 := abs_sin_le_one lat
-  have hA : |(cl - c) * cos lat| ≤ 0.00677 * 1e-10 := by
-    rw [abs_mul]
-    calc |cl - c| * |cos lat| ≤ |cl - c| * 1 := mul_le_mul_of_nonneg_left hcos1 (abs_nonneg _)
-      _ ≤ 0.00677 * 1e-10 := by rw [mul_one]; exact hLc
-  have hB : |(cl - c) * (1 - e) * sin lat| ≤ 0.00677 * 1e-10 := by
-    rw [abs_mul, abs_mul, abs_of_pos he2]
-    have h1 : |cl - c| * (1 - e) ≤ |cl - c| * 1 := mul_le_mul_of_nonneg_left he3 (abs_nonneg _)
-    have h2 : |cl - c| * (1 - e) * |sin lat| ≤ |cl - c| * (1 - e) * 1 :=
-      mul_le_mul_of_nonneg_left hsin1 (mul_nonneg (abs_nonneg _) he2.le)
-    linarith
-  have hC : |c * e * (sin lat2 - sin lat)| ≤ 1.00342 * 0.0066944 * 1e-10 := by
-    rw [abs_mul, abs_mul, abs_of_pos hcb.1, abs_of_pos he0]
-    have h1 : c * e ≤ 1.00342 * 0.0066944 := mul_le_mul hcb.2 he1 he0.le (by norm_num)
-    exact mul_le_mul h1 hLs (abs_nonneg _) (by norm_num)
+  have hD := abs_nonneg (gfun (ecc2 wgs84F) lat - gfun (ecc2 wgs84F) lat2)
   constructor
-  · have hid : (cl + (r / cos lat - c)) * cos lat - r = (cl - c) * cos lat := by
-      field_simp; ring
-    rw [hid]
-    refine le_trans hA (by norm_num)
-  · have hid : (cl * (1 - e) + (r / cos lat - c)) * sin lat - z
-        = (cl - c) * (1 - e) * sin lat + c * e * (sin lat2 - sin lat) := by
-      field_simp
-      linear_combination ht
-    rw [hid]
-    refine le_trans (abs_add_le _ _) ?_
-    refine le_trans (add_le_add hB hC) (by norm_num)
+  · rw [abs_mul, abs_mul]
+    have h1 : |gfun (ecc2 wgs84F) lat - gfun (ecc2 wgs84F) lat2| * |sin lat| ≤
+        |gfun (ecc2 wgs84F) lat - gfun (ecc2 wgs84F) lat2| * 1 := mul_le_mul_of_nonneg_left hsin1 hD
+    have h2 := mul_le_mul_of_nonneg_left hcos1 (mul_nonneg hD (abs_nonneg (sin lat)))
+    linarith
+  · rw [abs_neg, abs_mul, abs_pow]
+    have h1 : |cos lat| ^ 2 ≤ 1 := pow_le_one₀ (abs_nonneg _) hcos1
+    have h2 := mul_le_mul_of_nonneg_left h1 hD
+    linarith
 
-/-- 3-D round trip of a loop result: `pn` in earth radii (km / XKMPER) off the polar axis; converting
-    the returned latitude / the altitude the code forms back with the WGS-84 formulas and the rotation by
-    GMST gives `A · pn` up to `A · 1.35e-12` per component (≈ 9 µm) -/
-theorem roundtrip_of_loop (d : ℝ) (pn : V3 ℝ) (hxy : pn.x ≠ 0 ∨ pn.y ≠ 0)
+/-- 3-D round trip of a loop result: `pn` in earth radii (km / XKMPER), off the polar axis or at least 0.99
+    from the centre (polar axis included); converting the returned latitude / the altitude the code forms back
+    with the WGS-84 formulas and the rotation by GMST gives `A · pn` up to `A · 6.8e-13` per component (≈ 4 µm) -/
+theorem roundtrip_of_loop (d : ℝ) (pn : V3 ℝ)
+    (h0 : (pn.x ≠ 0 ∨ pn.y ≠ 0) ∨ 0.99 ^ 2 ≤ pn.x ^ 2 + pn.y ^ 2 + pn.z ^ 2)
     {fuel : ℕ} {lat0 lat c : ℝ} {n : ℕ}
     (h : latLoop pn.z (√(pn.x ^ 2 + pn.y ^ 2)) fuel lat0 = some (lat, c, n)) :
     |(geodeticToCartesian wgs84A wgs84F lat
         (Astro.gmst d + wrapLon (Complex.arg ⟨pn.x * 6378.135, pn.y * 6378.135⟩ - Astro.gmst d))
-        ((√(pn.x ^ 2 + pn.y ^ 2) / cos lat - c) * wgs84A)).x - wgs84A * pn.x| ≤ wgs84A * 6.8e-13 ∧
+        (altOf pn.z (√(pn.x ^ 2 + pn.y ^ 2)) lat * wgs84A)).x - wgs84A * pn.x| ≤ wgs84A * 6.8e-13 ∧
     |(geodeticToCartesian wgs84A wgs84F lat
         (Astro.gmst d + wrapLon (Complex.arg ⟨pn.x * 6378.135, pn.y * 6378.135⟩ - Astro.gmst d))
-        ((√(pn.x ^ 2 + pn.y ^ 2) / cos lat - c) * wgs84A)).y - wgs84A * pn.y| ≤ wgs84A * 6.8e-13 ∧
+        (altOf pn.z (√(pn.x ^ 2 + pn.y ^ 2)) lat * wgs84A)).y - wgs84A * pn.y| ≤ wgs84A * 6.8e-13 ∧
     |(geodeticToCartesian wgs84A wgs84F lat
         (Astro.gmst d + wrapLon (Complex.arg ⟨pn.x * 6378.135, pn.y * 6378.135⟩ - Astro.gmst d))
-        ((√(pn.x ^ 2 + pn.y ^ 2) / cos lat - c) * wgs84A)).z - wgs84A * pn.z| ≤ wgs84A * 1.35e-12 := by
-  have hr : 0 < √(pn.x ^ 2 + pn.y ^ 2) := by
-    apply Real.sqrt_pos.2
-    rcases hxy with h | h
-    · have := sq_pos_of_ne_zero h; nlinarith [sq_nonneg pn.y]
-    · have := sq_pos_of_ne_zero h; nlinarith [sq_nonneg pn.x]
+        (altOf pn.z (√(pn.x ^ 2 + pn.y ^ 2)) lat * wgs84A)).z - wgs84A * pn.z| ≤ wgs84A * 6.8e-13 := by
   have hr2 : √(pn.x ^ 2 + pn.y ^ 2) ^ 2 = pn.x ^ 2 + pn.y ^ 2 := Real.sq_sqrt (by positivity)
   obtain ⟨lat2, hstep, hclose⟩ := latLoop_some _ _ fuel lat0 lat c n h
   have hl : (latStep pn.z (√(pn.x ^ 2 + pn.y ^ 2)) lat2).1 = lat := by rw [hstep]
-  have hcc : (latStep pn.z (√(pn.x ^ 2 + pn.y ^ 2)) lat2).2 = c := by rw [hstep]
   rw [← hl] at hclose
-  have hm := meridian_residual hr hclose
-  rw [hl, hcc] at hm
+  have hne : √(pn.x ^ 2 + pn.y ^ 2) ≠ 0 ∨
+      pn.z + (latStep pn.z (√(pn.x ^ 2 + pn.y ^ 2)) lat2).2 * ecc2 wgs84F * sin lat2 ≠ 0 := by
+    rcases h0 with hxy | hp
+    · left
+      apply ne_of_gt
+      apply Real.sqrt_pos.2
+      rcases hxy with h | h
+      · have := sq_pos_of_ne_zero h; nlinarith [sq_nonneg pn.y]
+      · have := sq_pos_of_ne_zero h; nlinarith [sq_nonneg pn.x]
+    · exact arg_point_ne_zero (by rw [hr2]; exact hp) lat2
+  have hm := meridian_residual hne hclose
+  rw [hl] at hm
   obtain ⟨hm1, hm2⟩ := hm
-  obtain ⟨hcos, hsin⟩ := cos_sin_atan2_scaled (x := pn.x) (y := pn.y) (k := 6378.135) (by norm_num) hr
+  obtain ⟨hx, hy⟩ := xy_polar (Astro.gmst d) pn.x pn.y
   have hclv := latStep_snd pn.z (√(pn.x ^ 2 + pn.y ^ 2)) lat
   set r := √(pn.x ^ 2 + pn.y ^ 2)
   set cl := (latStep pn.z r lat).2
   set g := Astro.gmst d
-  set a := Complex.arg ⟨pn.x * 6378.135, pn.y * 6378.135⟩
+  set θ := g + wrapLon (Complex.arg ⟨pn.x * 6378.135, pn.y * 6378.135⟩ - g)
+  set alt := altOf pn.z r lat
   have hA : (0 : ℝ) < wgs84A := by unfold wgs84A; norm_num
   have hN : primeVertical wgs84A wgs84F lat = wgs84A * cl := by
     rw [hclv]; unfold primeVertical; ring
-  have hct : cos (g + wrapLon (a - g)) = pn.x / r := by
-    rw [cos_add, cos_wrapLon, sin_wrapLon, ← cos_add, add_sub_cancel, hcos]
-  have hst : sin (g + wrapLon (a - g)) = pn.y / r := by
-    rw [sin_add, cos_wrapLon, sin_wrapLon, ← sin_add, add_sub_cancel, hsin]
-  have hxr : |pn.x / r| ≤ 1 := by
-    rw [abs_div, abs_of_pos hr, div_le_one hr]
-    apply Real.abs_le_sqrt
-    nlinarith [sq_nonneg pn.y]
-  have hyr : |pn.y / r| ≤ 1 := by
-    rw [abs_div, abs_of_pos hr, div_le_one hr]
-    apply Real.abs_le_sqrt
-    nlinarith [sq_nonneg pn.x]
-  simp only [geodeticToCartesian, hN, hct, hst]
-  set R' := (cl + (r / cos lat - c)) * cos lat
-  set Z' := (cl * (1 - ecc2 wgs84F) + (r / cos lat - c)) * sin lat
+  simp only [geodeticToCartesian, hN]
+  set R' := (cl + alt) * cos lat
+  set Z' := (cl * (1 - ecc2 wgs84F) + alt) * sin lat
   refine ⟨?_, ?_, ?_⟩
-  · have : (wgs84A * cl + (r / cos lat - c) * wgs84A) * cos lat * (pn.x / r) - wgs84A * pn.x
-        = wgs84A * ((R' - r) * (pn.x / r)) := by
-      simp only [R']; field_simp
+  · have : (wgs84A * cl + alt * wgs84A) * cos lat * cos θ - wgs84A * pn.x
+        = wgs84A * ((R' - r) * cos θ) := by
+      simp only [R']; rw [hx]; ring
     rw [this, abs_mul, abs_of_pos hA, abs_mul]
     apply mul_le_mul_of_nonneg_left _ hA.le
-    calc |R' - r| * |pn.x / r| ≤ 6.8e-13 * 1 := mul_le_mul hm1 hxr (abs_nonneg _) (by norm_num)
+    calc |R' - r| * |cos θ| ≤ 6.8e-13 * 1 :=
+          mul_le_mul hm1 (abs_cos_le_one θ) (abs_nonneg _) (by norm_num)
       _ = 6.8e-13 := mul_one _
-  · have : (wgs84A * cl + (r / cos lat - c) * wgs84A) * cos lat * (pn.y / r) - wgs84A * pn.y
-        = wgs84A * ((R' - r) * (pn.y / r)) := by
-      simp only [R']; field_simp
+  · have : (wgs84A * cl + alt * wgs84A) * cos lat * sin θ - wgs84A * pn.y
+        = wgs84A * ((R' - r) * sin θ) := by
+      simp only [R']; rw [hy]; ring
     rw [this, abs_mul, abs_of_pos hA, abs_mul]
     apply mul_le_mul_of_nonneg_left _ hA.le
-    calc |R' - r| * |pn.y / r| ≤ 6.8e-13 * 1 := mul_le_mul hm1 hyr (abs_nonneg _) (by norm_num)
+    calc |R' - r| * |sin θ| ≤ 6.8e-13 * 1 :=
+          mul_le_mul hm1 (abs_sin_le_one θ) (abs_nonneg _) (by norm_num)
       _ = 6.8e-13 := mul_one _
-  · have : (wgs84A * cl * (1 - ecc2 wgs84F) + (r / cos lat - c) * wgs84A) * sin lat - wgs84A * pn.z
+  · have : (wgs84A * cl * (1 - ecc2 wgs84F) + alt * wgs84A) * sin lat - wgs84A * pn.z
         = wgs84A * (Z' - pn.z) := by
       simp only [Z']; ring
     rw [this, abs_mul, abs_of_pos hA]
@@ -167,13 +156,13 @@ theorem sq_err_bound {q x ε : ℝ} (h : |q - wgs84A * x| ≤ ε) :
     `2e-6` of its length (the unit mismatch A/XKMPER − 1 = 3.14e-7 dominates) -/
 theorem roundtrip_2e6_of_components {qx qy qz x y z : ℝ}
     (hx : |qx - wgs84A * x| ≤ wgs84A * 6.8e-13) (hy : |qy - wgs84A * y| ≤ wgs84A * 6.8e-13)
-    (hz : |qz - wgs84A * z| ≤ wgs84A * 1.35e-12) (hp : 0.99 ^ 2 ≤ x ^ 2 + y ^ 2 + z ^ 2) :
+    (hz : |qz - wgs84A * z| ≤ wgs84A * 6.8e-13) (hp : 0.99 ^ 2 ≤ x ^ 2 + y ^ 2 + z ^ 2) :
     (qx - 6378.135 * x) ^ 2 + (qy - 6378.135 * y) ^ 2 + (qz - 6378.135 * z) ^ 2
       ≤ (2e-6 * 6378.135) ^ 2 * (x ^ 2 + y ^ 2 + z ^ 2) := by
   have hA : wgs84A * 6.8e-13 ≤ wgs84A * 1.35e-12 := by unfold wgs84A; norm_num
   have h1 := sq_err_bound (le_trans hx hA)
   have h2 := sq_err_bound (le_trans hy hA)
-  have h3 := sq_err_bound hz
+  have h3 := sq_err_bound (le_trans hz hA)
   have hε : (wgs84A * 1.35e-12) ^ 2 ≤ 1e-16 := by unfold wgs84A; norm_num
   nlinarith
 
